@@ -130,13 +130,21 @@ def handle2 (op : String) (a obs : List String) : Option Verdict :=
     let model := [match Qpack.decode b with
       | .ok m => s!"ok:{pairsStr (sortPairs m)}"
       | .error e => decErr e]
-    pure (model, check [("no_trap", !isTrap obs)])
+    -- an accepted section must read as RFC 9204 says (unbounded prefix integers): never a wrapped
+    -- or truncated value; a section the RFC reading accepts over UTF-8 text is not refused as overflow
+    let o := get obs 0
+    let prop := check [("no_trap", !isTrap obs),
+      ("accepted_section_is_the_rfc_reading", !o.startsWith "ok:" || Spec.qpackDecodeStr b == o)]
+    pure (model, prop)
   | "headers.decode" => do
     let b ← unhex (get a 0)
     let model := [match Headers.withPayload b with
       | .ok m => s!"ok:{pairsStr (sortPairs m)}"
       | .error e => h3 e]
-    pure (model, check [("no_trap", !isTrap obs)])
+    let o := get obs 0
+    let prop := check [("no_trap", !isTrap obs),
+      ("accepted_section_is_the_rfc_reading", !o.startsWith "ok:" || Spec.qpackDecodeStr b == o)]
+    pure (model, prop)
   | "qpack.encode" => do
     let p ← parsePairs (get a 0)
     let enc := Qpack.encode p
